@@ -1,11 +1,11 @@
 """C48 — HTTP Digest credentials verify exactly the right responses (H-tie, coq/C48).
 
-Correspondence cases are *field-level*: a response is a list of (key, value) pairs serialised as
-key="value", ...; the regular-expression parser of decode() is outside the model.  For those
+The model starts from the raw header bytes (splitlines/join, the _parseparts expression under
+findall, strip, ASCII field names), so structured responses (serialised as key="value", ...), byte-level
+mutations of raw responses and pure parser inputs are all compared with the model.  For the compared
 cases md5/sha1 are replaced (module-attribute patching) by the transparent, injective "hash"
 digest(x) = tag byte + x that coq/C48/Run.v also uses, so model and code are compared bit for bit.
-The same cases are also run with the real MD5/SHA-1 and a second stream mutates the raw response
-bytes; those go through the property oracle only.
+The same cases are also run with the real MD5/SHA-1; those go through the property oracle only.
 """
 from __future__ import annotations
 
@@ -488,10 +488,14 @@ SPEC = Spec(
          "time/address/nonce and odd time fields, dropped / empty / duplicated fields, unknown algorithm, auth-int, md5-sess "
          "without cnonce, response for another password, one-byte change in each response field), 60 each with the "
          "transparent hash (compared with the model) and 25 each with real MD5/SHA-1 (oracle only), 1500 random byte-level "
-         "mutations (flip/delete/insert, 1-3 bytes) of a raw honest response (oracle only), 100 issued challenges; "
+         "mutations (flip/delete/insert, 1-3 bytes) of a raw honest response, 300 well-formed key=value lists in every spelling "
+         "(quoted/bare, folded lines, padding) that must parse back to their pairs, 500 random strings over the bytes the "
+         "expression distinguishes, 100 issued challenges; "
          "thorough = 20x; non-trivial = anything but an unmodified honest response that was denied; distinct by (case, observation)",
     trusted=["hand-written model coq/C48/Model.v of the acceptance logic on parsed fields (tied by this correspondence run)",
-             "the regular-expression field parser of decode() is not modelled (raw mutations go through the oracle only)",
+             "the regular expression of decode() is transcribed by hand into Model.match_at / findall (leftmost match, greedy "
+             "runs, quoted alternative first, bare fallback when the closing quote is missing) and compared with Python's re on "
+             "every run: 800 parser-only inputs, 1 500 raw mutations",
              "MD5/SHA-1: Section variable HX with the hypothesis that it is injective (ideal hash); base64: Section variables "
              "with round-trip hypothesis, Run.v's executable b64encode / a2b_base64 are compared with CPython on every run",
              "for model comparison md5/sha1 are replaced by the injective map digest(x) = tag+x in both model and code"],
